@@ -70,7 +70,7 @@ def run_worklist(arg) -> Stats:
     from xdsl.utils.worklist import Worklist, _MISSING
 
     st = Stats()
-    items = ("a", "b", "c", "d")[:nitems]
+    items = ("a", "b", "c", "d", "e", "f")[:nitems]
 
     def init():
         return [Worklist(), []]
@@ -320,11 +320,12 @@ def _task(t):
 def run(ctx):
     q = ctx.quick
     tasks = [
-        ("worklist", (12, 3) if q else (14, 4)),
-        ("uf", (8 if q else 10, 5 if q else 6, False)),
-        ("uf", (7 if q else 9, 4 if q else 5, True)),
-        ("scoped", (4 if q else 5, 3)),
-        ("scoped", (6 if q else 8, 2)),
+        ("worklist", (14, 4) if q else (18, 4)),
+        ("worklist", (9, 5) if q else (12, 6)),
+        ("uf", (9 if q else 12, 5 if q else 6, False)),
+        ("uf", (8 if q else 10, 5, True)),
+        ("scoped", (5 if q else 6, 3)),
+        ("scoped", (7 if q else 9, 2)),
     ]
     ctx.bounds = {"tasks": [list(map(str, t)) for t in tasks]}
     for t, st in pmap(_task, tasks):
